@@ -3,179 +3,193 @@ from common import LEAN_TB
 CFG = {'lean_modules': ['ObiVerif.Props.C12', 'ObiVerif.Props.C12S', 'ObiVerif.Props.C12B', 'ObiVerif.Props.C12M'],
  'gen': True,
  'thorough_seeds': 8,
- 'rule': ('cases = (sample sheet, read): sheets rendered in the old ngsfilter text or in CSV with @param lines (1-3 markers, plain or IUPAC primers, tag '
- 'lengths 0/3..9 per side, asymmetric and absent tags, shared tags between samples, strict/hamming/indel, spacers 0..3 (unequal on the two sides), '
- 'tag delimiters, rescue indels, primer budgets 0..4 and -e override, global / forward_ / reverse_ / per-primer parameter forms, comments, upper '
- 'case, permuted columns, extra annotation column) read by the real ReadNGSFilter; reads BUILT from a declared sample: flank + tag + spacer + primer '
- 'instance + barcode + rc(primer instance) + rc(spacer) + rc(tag) + flank in both orientations (1/6 of the reads without left / right flank: the '
- 'outer tag touches the read end), primer mismatches within and beyond the budget, tag errors incl. built ties between two declared tags, missing '
- 'priming sites, chimeras of 1..3 amplicons, truncated reads; expectations (generator intent + strand symmetry) are checked for fixed-length AND '
- 'delimited tags; hand-picked sheets (inconsistent tag lengths, a primer used twice, close primers, duplicated tag pair, empty read, primer dimers); '
- 'unit cases of Hamming / Levenshtein / lookForTag / lookForRescueTag; `multi` cases = HISTORIES: one sheet, 2..8 reads sent in order through ONE '
- 'library object (and each read again through a library read afresh), then the whole obimultiplex stage (IExtractBarcode with the options set '
- "through the command's own parser: nothing / --keep-errors / -u file / both) on the same reads: histories on libraries made for them (hamming / "
- 'indel, same tag length on both sides, forward and reverse tag SETS different but drawn from one pool, close neighbours and ties, fixed / delimited '
- '/ rescue extraction) whose reads show the same declared or erroneous tag string first on one side then on the other side of later reads, exchanged '
- 'tag pairs (tag jumps), plus data sets of generated reads of every class (chimeras, lone sites, truncated reads) on random libraries; `sheet` '
- 'cases: generated CSV records (0..12 @param lines over the 16 parameter names + unknown names, 0/1/2/3 values, per-primer forms with known / '
- 'unknown / upper-case primers, valid and invalid integers, delimiters, booleans, matching modes; permuted / duplicated / missing columns, extra '
- 'columns, tag forms a:b, a, -:b, a:-, -, "", a:b:c, duplicated tag pairs, shared primers, rows of the wrong width, header only, @param after the '
- 'header; decorated with leading blanks, comments, CRLF, no final newline) and old-format lines (blank / comment lines, tabs, 5..7 fields, '
- 'annotation parts) read by the real ReadNGSFilter and by the model of the reader; `sheetb` cases: the sheets from their BYTES — renderings of '
- 'generated CSV records / old-format lines with byte-level decorations (mixed LF / CRLF, a lone CR at the end, no final newline, blank-only lines, '
- 'blanks (space, tab, VT, FF) before any field incl. the first one where reader and detectors see different records, blanks after fields, indented '
- 'comments, double quotes inside bare fields, trailing commas, tab-separated old sheets, FASTQ / FASTA / EMBL / GenBank / ecoPCR look-alikes and '
- "texts with 'binary' bytes (vertical tab, 0x01, 0x1f), sheets padded beyond the 3072 bytes the detectors look at with the inconsistency before / at "
- '/ after the limit, exactly 3072 bytes), hand-picked texts, the sheet printed by `obimultiplex --template` (LF and CRLF); `wk` cases: 1..3 workers '
- '(-e in -1..4, --with-indels on / off) built one after the other on ONE library object read from a generated sheet; non-trivial = distinct '
- 'well-formed case'),
- 'technique': ('Lean 4 theorems on a transcription of multimatch.go (distances, tag extractors, nearest-unique-tag loop, sample identification, the '
- 'forward->reverse state machine) and of the semantic part of ngsfilter_read.go + the setters of ngslibrary.go / marker.go, of its byte-level layers '
- '(encoding/csv as configured by the reader and by the two detectors, the choice of the reader by mimetype.Detect on the first 3072 bytes, '
- '_readLines; built on the line / field models of C14 and C04) and of the library OBJECT (state threaded through worker constructions and reads) + '
- 'differential correspondence with the real ReadNGSFilter (library dump: every parameter, tag length, sample, annotation of every marker, or '
- 'sheet-error / fatal / panic) and ExtractMultiBarcodeSliceWorker and obimultiplex.IExtractBarcode (main output and file of unidentified reads), the '
- 'primer hits being obtained from the real matcher (C10) and handed to the model as data + generator-knows-the-answer oracle, strand-symmetry '
- 'oracle, brute-force safety oracle and determinism oracles (demultiplexing and sheet reading), history-independence oracle (a read after others on '
- 'one library object = the read on a fresh library), routing oracles (no unassigned record in the main output, nothing lost) frame oracle (the '
- 'library object after a history of reads = before), option oracles (-e / --with-indels → budgets of every marker), template oracle (the sheet '
- 'printed by --template is accepted as shown); the classes of the gating model (a search started at p = / ≠ the hits of the whole read starting at p '
- 'or after) are counted on the real code, not required'),
- 'level_text': ('Proved in Lean for all inputs on the transcription of multimatch.go: hamming_spec; levenshtein_is_edit_distance + levenshtein_eq_editDist (the '
- 'two-row programme = the textbook recurrence on the strings AS GIVEN: the recurrence is proved invariant under reversal) + levenshtein_min_script '
- '(= the cost of a cheapest edit script, inductive specification Align, independent of any recurrence) + levenshtein_metric (zero iff equal, '
- 'symmetric, triangle inequality, length bounds); closest_unique / closest_unique_complete / closest_unique_perm (a tag is returned iff it is the '
- 'unique minimiser, whatever the order in which the Go map delivers the tags); never_wrong_sample (a sample is returned only if the proposed pair is '
- 'declared for it and each proposed tag is identified from the extracted tag under strict / hamming / indel), under the hypothesis that '
- 'CheckTagLength accepted the sheet (wf_tags_nonempty, tagExtractor_untagged), with the counterexample wrong_sample_without_taglength_check (the '
- 'input that failed on the unrepaired code), and accepted_sheet_never_wrong_sample: that hypothesis is discharged for every marker of a sheet '
- 'accepted by the model of ReadNGSFilter in either format (accepted_sheet_wellformed: primer unicity survives the @param lines, CheckTagLength '
- 'holds; params_touch_parameters_only: no @param line, whatever its name / arity / value, changes primers or the tag pair -> sample table); '
- 'unassigned_is_flagged / no_amplicon_is_flagged; constructed_read (fixed tags) and constructed_read_any_tags (each side fixed-length OR delimited '
- 'without rescue: any flanks, the declared spacers, absent tags, any marker position in the sheet, all three modes: exactly one amplicon = barcode, '
- 'forward, matches, tags, declared sample, given primer hits at the built sites only); constructed_read_rc(_any_tags) and strand_symmetry(_any_tags) '
- '(the reverse-complemented built read with the mirrored hits gives the same amplicon, direction flipped — the different window widths of the two '
- 'delimited extractors are proved immaterial on built reads, and delimited_window_asymmetry shows the exact read shape, outside built reads, where '
- 'they matter); constructed_read_rescue / constructed_read_rc_rescue / strand_symmetry_rescue (each side fixed, delimited OR RESCUE — delimiter + '
- 'tag indels, the observed tag with insertions / deletions within the declared number of indels between two borders, a non-delimiter base before the '
- 'outer border: exactly one amplicon with the observed tags, identification = nearest unique declared tag; the two rescue windows have the same '
- 'width, so the reverse complement gives the same amplicon, direction flipped; rescue_scanner_layout is the statement on lookForRescueTag itself, '
- 'rescue_limits the exact counterexamples: no base before the outer border -> tag lost, outer border longer than declared -> the extra delimiters '
- 'join the tag); machine_selects_adjacent_pairs and pairing_strand_symmetric (chimeras: the state machine extracts exactly the adjacent '
- 'forward/complementary hit pairs, and that selection is mirror-symmetric); symmetric_class + symmetric_iff_ungated + gated_hits_break_mirror '
- '(strand symmetry beyond built reads, in terms of hit lists: for ALL the hits of the four patterns of every marker, separated — no two hits '
- 'starting / ending at the same place, none nested — the sorted list collected on the reverse complement is the mirror image of the list collected '
- 'on the read, and the state machine extracts the mirrored pairs, IF AND ONLY IF the gating of the two complemented searches drops nothing on either '
- 'strand; a hit dropped on one strand is always collected on the other: the open gating finding is exactly the complement of the class, '
- 'known_finding_is_gated places its read there); amplicon_is_exact (ANY read, ANY hits: every amplicon comes from an adjacent pair, its sequence is '
- 'exactly Subsequence(f.End, m.Begin) between the two primer matches, reverse-complemented in reverse orientation, matches / error counts / tags / '
- 'identification read off the read at the two hits: EmitSpec); annotation_set (the complete annotation list of an amplicon as a concatenation of '
- 'blocks: primers, matches, error counts, non-empty tags, direction, per tagged side mode / distance / proposed tag, then obimultiplex_error with '
- "its text OR sample, experiment and the sheet's annotation columns); record_error_flag + main_output_is_assigned + routing_is_a_partition (model of "
- 'IExtractBarcode: without --keep-errors, and in the main output with -u, only amplicons that SampleIdentifier assigned, the sequence written being '
- 'that barcode; --keep-errors writes everything; -u splits the records, nothing lost). The models are tied to /repo by running the real '
- 'ReadNGSFilter on generated CSV records / old-format lines (library dump compared with the model of the reader) and ReadNGSFilter + '
- 'ExtractMultiBarcodeSliceWorker on generated sheets (both formats) and built reads, comparing every returned record (id, sequence, all annotations) '
- 'with the model fed with the primer hits of the real matcher, on single reads and on histories of reads on one library object, and the two output '
- "streams of the real obimultiplex stage with the model's routing; oracles on the real code: generator intent, strand symmetry (incl. chimeras and "
- 'delimited tags), brute-force safety, determinism over repeated runs, independence of the reads demultiplexed before on the same library (catches '
- 'the seeded per-marker nearest-tag cache C12-m3 with failing histories),  sheet-as-read = sheet-as-declared. Third pass. THE LIBRARY OBJECT '
- '(Props/C12S.lean on Model/DemuxState.lean: parameters, sample tables and compiled patterns — which freeze the budgets they were compiled with — '
- 'threaded as state): read_leaves_library_unchanged / history_leaves_library_unchanged (frame: ExtractMultiBarcode writes nothing), '
- 'read_independence (the results of a history on one object = each read alone on the initial state), answer_independent_of_history, history_perm '
- "(order of the reads immaterial); worker_options_spec (-e > 0 replaces both budgets of every marker, -e <= 0 keeps the sheet's values, "
- '--with-indels can only switch indels on, nothing else is touched), worker_compiles_current_parameters, mkWorker_idem, worker_options_persist (the '
- 'object REMEMBERS the workers built before: state that exists in the code as it is; obimultiplex builds one worker per object); '
- 'params_applied_in_order (@param lines compose in file order: a later line overrides an earlier conflicting one), last_global_param_wins. THE SHEET '
- 'FROM ITS BYTES (Props/C12B.lean on Model/NgsFilterBytes.lean): csv_rendering_read_back (every rendering of records — blanks before any field, LF '
- 'or CRLF per line, comment and empty lines anywhere — is read back by encoding/csv as configured by ReadCSVNGSFilter as exactly the declared '
- 'records), csv_rendering_seen_by_detectors (the same without TrimLeadingSpace), rendering_reader_choice, '
- 'accepted_csv_sheet_is_declared_table_partial (PARTIAL: renderings shorter than the 3072-byte window, that do not look like a sequence file and '
- "hold no 'binary data byte': such a sheet goes to the CSV reader iff its records have a constant number > 1 of fields, or those that are not @param "
- 'lines do, and is then read from exactly the declared records), old_rendering_read_back (_readLines returns the declared lines whatever the blanks '
- 'around them, LF / CRLF, blank lines), accepted_bytes_wellformed (a library returned for ANY bytes by either reader satisfies the hypotheses of '
- 'never_wrong_sample). CHIMERAS (Props/C12M.lean): pair_yield_strand_symmetric (any read A ++ P1 ++ BC ++ P2 ++ B with ARBITRARY flanks A, B — other '
- 'amplicons, lone sites, a tag window reaching into the neighbour, a flank too short — and fixed-length or absent tags on both sides: the pair '
- 'yields barcode / matches / error counts / tags / identification as a function of (P1, BC, P2, the two tag windows), and the reverse-complemented '
- 'read with the mirrored hits yields the same amplicon, direction flipped, coordinates mirrored: with symmetric_class this is strand symmetry of '
- 'whole chimeric reads for fixed tags), pair_yield_depends_on_tag_windows_only; positional_gating_breaks_symmetry (the gating finding has a second, '
- 'positional part that also fails when BOTH direct primers hit: failing read on the real code in the corpus). GATED SEARCHES: '
- "gated_search_is_filter_on_separated_hits / gated_search_is_not_filter_in_general (on C10's model of FilterBestMatch: a search started at p is the "
- 'filter of the whole-read search when the raw hits are pairwise non-overlapping, and not in general).'),
- 'level_note': ('Trusted: Lean kernel; the transcriptions Model/Demux.lean and Model/NgsFilter.lean; the primer matcher (hits are data, C10). The model `gate` of '
- 'the gated searches used by symmetric_class / symmetric_iff_ungated (a search started at position p returns the hits of the whole read starting at '
- 'p or after) is NOT a property of the matcher (FilterBestMatch keeps one representative per chain of overlapping raw hits, and the chains seen from '
- 'p differ from those seen from 0): it is exact when the raw hits of the pattern are pairwise non-overlapping (theorem '
- "gated_search_is_filter_on_separated_hits, on C10's model of FilterBestMatch, for mismatch-only patterns whose raw search from p is the filter of "
- 'the raw search from 0) and false otherwise (gated_search_is_not_filter_in_general: the shape met by the sweep on a degenerate IUPAC primer with 3 '
- 'mismatches). The classes are COUNTED on every demux case (stats demux.gate-is-filter, demux.gate-is-not-filter.overlapping-raw-hits / '
- '.raw-search-not-a-filter / .UNEXPLAINED-separated-raw-hits, demux.gate-differs-indel-pattern), never reported as failures: the model of '
- 'demultiplexing takes the hit lists of the real gated calls as data and does not use `gate`. Strand symmetry of what each selected pair YIELDS is '
- 'proved for ARBITRARY flanks (chimeras) when both sides of the marker use fixed-length or absent tags (pair_yield_strand_symmetric, hit pairs with '
- "begin < end < begin' < end' inside the read); for delimited tags with a spacer > 0 it is false outside built reads (delimited_window_asymmetry is "
- 'the exact counterexample: the two windows have different widths); for delimited tags with spacer 0 and for rescue tags it is proved on built reads '
- 'only (strand_symmetry_any_tags / strand_symmetry_rescue) and is the harness oracle on chimeras. The rescue theorems need 0 < indels < tag length '
- "and a non-delimiter base before the outer border (rescue_limits shows both failure shapes; the generator's built reads with rescue markers and no "
- 'outer base are in the correspondence, without expectation). The library object is modelled WITH its state (Model/DemuxState.lean) and '
- 'read-independence is a theorem on the transcription (the per-read code has no write to the library: every access is a read of the state argument); '
- 'the model executable runs every history of the multi cases through that state-passing model (runHistory on one object, the matcher parameter being '
- 'the hit lists of the real calls); that the transcription misses no write of the real code is tied by the history oracle (a read after others = the '
- 'read on a fresh library) and the frame oracle (library dump after = before) of the multi cases — the seeded cache C12-m3 is such a missed write '
- 'and is caught by them. The matcher is a parameter of that model (its hits are a function of the primers, the frozen budgets and the read: C10); '
- 'the pooled annotation maps of obiseq are C05. obimultiplex is modelled from the records of the worker on (route); batching, parallel workers and '
- 'the writers are C03/C04/C05; the file of unidentified reads is compared as (id, sequence, error text). The sheet reader is modelled from the BYTES '
- '(sheetb cases) for texts in which no CSV field starts with a double quote (a quoted field is the explicit outcome `unmodelled`, never generated; '
- 'with LazyQuotes a quote inside a bare field is an ordinary byte): encoding/csv comments / empty lines / TrimLeadingSpace / CRLF, the 3072-byte '
- 'window of the detectors with its dropped last line, and the choice of the reader IN THE STATE OF THE MIMETYPE TREE OF THE RUNNING COMMAND '
- '(whichReader): the tree is process-global and both guessers of obiformats extend it, in front, at every call; obimultiplex opens its input '
- '(OBIMimeTypeGuesser: FASTQ / FASTA / EMBL / GenBank-prefix / ecoPCR detectors and a csv detector attached to the ROOT, asked even for data with '
- "'binary' bytes such as a vertical tab) before it reads the sheet, so a sheet that looks like a sequence file (e.g. '@param,…' followed by one line "
- "without blank, or by a line starting with '+': FASTQ) goes to the old reader, a constant-width CSV is text/csv whatever its bytes, and only then "
- 'magic.Text and NGSFilterCsvDetector are asked; tab-separated-values / plain text / octet-stream all go to the old reader. The harness pins that '
- 'state once per process (OBSERVATION, no patch: in a process that has not opened a sequence file, ReadNGSFilter sends a constant-width CSV holding '
- 'a vertical tab to the old reader, which rejects it; the answer of a library function depends on what the process did before). Not modelled: the '
- "second form of the GenBank detector (a first line '… Genetic Sequence Data Bank'), the other children of text/plain (html, xml, php, js, lua, "
- 'perl, python, json, ndjson, rtf, srt, tcl, vcard, icalendar, warc, vtt) and the formats recognised by magic numbers — the text is assumed to be '
- 'ASCII that none of them recognises. The read-back theorems are stated for renderings with a final line terminator (no final newline, a lone final '
- 'CR: correspondence only) and accepted_csv_sheet_is_declared_table_partial for renderings below the 3072-byte window that do not look like a '
- 'sequence file and hold no binary byte (beyond the window: modelled and tied, not in the theorem); the annotation part of the old format is '
- 'modelled for the sub-grammar key=word; only (ParseOBIFeatures is C02); text is ASCII. In the record-level model (sheet cases) a CSV text that is '
- 'not detected as CSV is assumed to be rejected by the old reader; the byte-level model (sheetb cases) sends it to the old reader and reads its '
- 'lines. Observation (not a property violation, no patch): OBIMimeNGSFilterTypeGuesser registers one more CSV detector in the global mimetype tree '
- 'at every call, so repeated readings get slower (the harness reads each sheet once per library). obimultiplex command level: --allowed-mismatches / '
- '--with-indels → library parameters is modelled (applyOpts) and tied on the real worker constructor (wk cases, incl. several constructions on one '
- "object); --keep-errors / --unidentified are modelled (route) and tied through the command's own option parser and IExtractBarcode; the template "
- 'printed by --template is read by the real reader and by the byte-level model (LF and CRLF). Open finding (code left as it is, modelled as it is, '
- 'theorems gating_breaks_symmetry and positional_gating_breaks_symmetry; KEPT after measurement: removing the gating costs a fourth whole-read scan '
- 'per marker on every ordinary read — 3 -> 4 scans, 2 -> 4 on reads without site; measured 11 -> 23 us per read for the scans of the template '
- "library on the loaded machine, the whole worker taking ~30 us — and a fix limited to 'scan the complemented primer when the direct one misses' "
- 'costs the same fourth scan and leaves the positional half of the asymmetry): the hits of a complemented primer are collected only when the partner '
- 'primer hits somewhere, so in reads with lone priming sites a hit lying between a forward hit and its complementary hit can be invisible to the '
- 'state machine (pseudo-amplicon, and a different answer on the other strand). Three defects repaired in /repo (tag-length error dropped, map-order '
- 'dependence, primer-unicity error dropped): the model is of the repaired behaviour.'),
+ 'rule': ('cases = (sample sheet, read): sheets rendered in the old ngsfilter text or in CSV with @param lines (1-3 markers, plain or IUPAC primers, tag lengths 0/3..9 '
+ 'per side, asymmetric and absent tags, shared tags between samples, strict/hamming/indel, spacers 0..3 (unequal on the two sides), tag delimiters, rescue '
+ 'indels, primer budgets 0..4 and -e override, global / forward_ / reverse_ / per-primer parameter forms, comments, upper case, permuted columns, extra '
+ 'annotation column) read by the real ReadNGSFilter; reads BUILT from a declared sample: flank + tag + spacer + primer instance + barcode + rc(primer '
+ 'instance) + rc(spacer) + rc(tag) + flank in both orientations (1/6 of the reads without left / right flank: the outer tag touches the read end), primer '
+ 'mismatches within and beyond the budget, tag errors incl. built ties between two declared tags, missing priming sites, chimeras of 1..3 amplicons, truncated '
+ 'reads; expectations (generator intent + strand symmetry) are checked for fixed-length AND delimited tags; hand-picked sheets (inconsistent tag lengths, a '
+ 'primer used twice, close primers, duplicated tag pair, empty read, primer dimers); unit cases of Hamming / Levenshtein / lookForTag / lookForRescueTag; '
+ '`multi` cases = HISTORIES: one sheet, 2..8 reads sent in order through ONE library object (and each read again through a library read afresh), then the '
+ "whole obimultiplex stage (IExtractBarcode with the options set through the command's own parser: nothing / --keep-errors / -u file / both) on the same "
+ 'reads: histories on libraries made for them (hamming / indel, same tag length on both sides, forward and reverse tag SETS different but drawn from one pool, '
+ 'close neighbours and ties, fixed / delimited / rescue extraction) whose reads show the same declared or erroneous tag string first on one side then on the '
+ 'other side of later reads, exchanged tag pairs (tag jumps), plus data sets of generated reads of every class (chimeras, lone sites, truncated reads) on '
+ 'random libraries; `sheet` cases: generated CSV records (0..12 @param lines over the 16 parameter names + unknown names, 0/1/2/3 values, per-primer forms '
+ 'with known / unknown / upper-case primers, valid and invalid integers, delimiters, booleans, matching modes; permuted / duplicated / missing columns, extra '
+ 'columns, tag forms a:b, a, -:b, a:-, -, "", a:b:c, duplicated tag pairs, shared primers, rows of the wrong width, header only, @param after the header; '
+ 'decorated with leading blanks, comments, CRLF, no final newline) and old-format lines (blank / comment lines, tabs, 5..7 fields, annotation parts) read by '
+ 'the real ReadNGSFilter and by the model of the reader; `sheetb` cases: the sheets from their BYTES — renderings of generated CSV records / old-format lines '
+ 'with byte-level decorations (mixed LF / CRLF, a lone CR at the end, no final newline, blank-only lines, blanks (space, tab, VT, FF) before any field incl. '
+ 'the first one where reader and detectors see different records, blanks after fields, indented comments, double quotes inside bare fields, trailing commas, '
+ "tab-separated old sheets, FASTQ / FASTA / EMBL / GenBank / ecoPCR look-alikes and texts with 'binary' bytes (vertical tab, 0x01, 0x1f), sheets padded beyond "
+ 'the 3072 bytes the detectors look at with the inconsistency before / at / after the limit, exactly 3072 bytes), hand-picked texts, the sheet printed by '
+ '`obimultiplex --template` (LF and CRLF); `wk` cases: 1..3 workers (-e in -1..4, --with-indels on / off) built one after the other on ONE library object read '
+ 'from a generated sheet; `conc` cases: one sheet (nearest-tag libraries in hamming / indel mode, with delimited / rescue tags, random libraries of every '
+ 'kind) and 6..100 chimeric reads (1..10 generated reads joined by linkers: several amplicons of several markers with different outcomes per read), '
+ 'demultiplexed alone, then from 8..24 goroutines sharing ONE library and ONE closure per round (10..800 rounds = libraries used for the first time by '
+ 'overlapping calls), through the slice worker on batches of 1..64 reads (obimultiplex) or through ExtractMultiBarcode read by read (obitagpcr); non-trivial = '
+ 'distinct well-formed case'),
+ 'technique': ('Lean 4 theorems on a transcription of multimatch.go (distances, tag extractors, nearest-unique-tag loop, sample identification, the forward->reverse state '
+ 'machine) and of the semantic part of ngsfilter_read.go + the setters of ngslibrary.go / marker.go, of its byte-level layers (encoding/csv as configured by '
+ 'the reader and by the two detectors, the choice of the reader by mimetype.Detect on the first 3072 bytes, _readLines; built on the line / field models of '
+ 'C14 and C04) and of the library OBJECT (state threaded through worker constructions and reads) + differential correspondence with the real ReadNGSFilter '
+ '(library dump: every parameter, tag length, sample, annotation of every marker, or sheet-error / fatal / panic) and ExtractMultiBarcodeSliceWorker and '
+ 'obimultiplex.IExtractBarcode (main output and file of unidentified reads), the primer hits being obtained from the real matcher (C10) and handed to the '
+ 'model as data + generator-knows-the-answer oracle, strand-symmetry oracle, brute-force safety oracle and determinism oracles (demultiplexing and sheet '
+ 'reading), history-independence oracle (a read after others on one library object = the read on a fresh library), routing oracles (no unassigned record in '
+ 'the main output, nothing lost) frame oracle (the library object after a history of reads = before), option oracles (-e / --with-indels → budgets of every '
+ 'marker), template oracle (the sheet printed by --template is accepted as shown), concurrent-use oracle (conc cases: every answer obtained from g goroutines '
+ 'sharing the library and the closure = the answer of the read alone, which is the line the model recomputes; no call dies; the library object is unchanged; '
+ 'the concurrent phase runs in a child process so that a runtime `concurrent map` fatal error is a failure with its input; thorough tier, first seed: four '
+ 'cases replayed through a `go build -race` build, a report with an access in obingslibrary / obiapat / obimultiplex / obitagpcr is a failure); the classes of '
+ 'the gating model (a search started at p = / ≠ the hits of the whole read starting at p or after) are counted on the real code, not required'),
+ 'level_text': ('Proved in Lean for all inputs on the transcription of multimatch.go: hamming_spec; levenshtein_is_edit_distance + levenshtein_eq_editDist (the two-row '
+ 'programme = the textbook recurrence on the strings AS GIVEN: the recurrence is proved invariant under reversal) + levenshtein_min_script (= the cost of a '
+ 'cheapest edit script, inductive specification Align, independent of any recurrence) + levenshtein_metric (zero iff equal, symmetric, triangle inequality, '
+ 'length bounds); closest_unique / closest_unique_complete / closest_unique_perm (a tag is returned iff it is the unique minimiser, whatever the order in '
+ 'which the Go map delivers the tags); never_wrong_sample (a sample is returned only if the proposed pair is declared for it and each proposed tag is '
+ 'identified from the extracted tag under strict / hamming / indel), under the hypothesis that CheckTagLength accepted the sheet (wf_tags_nonempty, '
+ 'tagExtractor_untagged), with the counterexample wrong_sample_without_taglength_check (the input that failed on the unrepaired code), and '
+ 'accepted_sheet_never_wrong_sample: that hypothesis is discharged for every marker of a sheet accepted by the model of ReadNGSFilter in either format '
+ '(accepted_sheet_wellformed: primer unicity survives the @param lines, CheckTagLength holds; params_touch_parameters_only: no @param line, whatever its name '
+ '/ arity / value, changes primers or the tag pair -> sample table); unassigned_is_flagged / no_amplicon_is_flagged; constructed_read (fixed tags) and '
+ 'constructed_read_any_tags (each side fixed-length OR delimited without rescue: any flanks, the declared spacers, absent tags, any marker position in the '
+ 'sheet, all three modes: exactly one amplicon = barcode, forward, matches, tags, declared sample, given primer hits at the built sites only); '
+ 'constructed_read_rc(_any_tags) and strand_symmetry(_any_tags) (the reverse-complemented built read with the mirrored hits gives the same amplicon, direction '
+ 'flipped — the different window widths of the two delimited extractors are proved immaterial on built reads, and delimited_window_asymmetry shows the exact '
+ 'read shape, outside built reads, where they matter); constructed_read_rescue / constructed_read_rc_rescue / strand_symmetry_rescue (each side fixed, '
+ 'delimited OR RESCUE — delimiter + tag indels, the observed tag with insertions / deletions within the declared number of indels between two borders, a '
+ 'non-delimiter base before the outer border: exactly one amplicon with the observed tags, identification = nearest unique declared tag; the two rescue '
+ 'windows have the same width, so the reverse complement gives the same amplicon, direction flipped; rescue_scanner_layout is the statement on '
+ 'lookForRescueTag itself, rescue_limits the exact counterexamples: no base before the outer border -> tag lost, outer border longer than declared -> the '
+ 'extra delimiters join the tag); machine_selects_adjacent_pairs and pairing_strand_symmetric (chimeras: the state machine extracts exactly the adjacent '
+ 'forward/complementary hit pairs, and that selection is mirror-symmetric); symmetric_class + symmetric_iff_ungated + gated_hits_break_mirror (strand symmetry '
+ 'beyond built reads, in terms of hit lists: for ALL the hits of the four patterns of every marker, separated — no two hits starting / ending at the same '
+ 'place, none nested — the sorted list collected on the reverse complement is the mirror image of the list collected on the read, and the state machine '
+ 'extracts the mirrored pairs, IF AND ONLY IF the gating of the two complemented searches drops nothing on either strand; a hit dropped on one strand is '
+ 'always collected on the other: the open gating finding is exactly the complement of the class, known_finding_is_gated places its read there); '
+ 'amplicon_is_exact (ANY read, ANY hits: every amplicon comes from an adjacent pair, its sequence is exactly Subsequence(f.End, m.Begin) between the two '
+ 'primer matches, reverse-complemented in reverse orientation, matches / error counts / tags / identification read off the read at the two hits: EmitSpec); '
+ 'annotation_set (the complete annotation list of an amplicon as a concatenation of blocks: primers, matches, error counts, non-empty tags, direction, per '
+ "tagged side mode / distance / proposed tag, then obimultiplex_error with its text OR sample, experiment and the sheet's annotation columns); "
+ 'record_error_flag + main_output_is_assigned + routing_is_a_partition (model of IExtractBarcode: without --keep-errors, and in the main output with -u, only '
+ 'amplicons that SampleIdentifier assigned, the sequence written being that barcode; --keep-errors writes everything; -u splits the records, nothing lost). '
+ 'The models are tied to /repo by running the real ReadNGSFilter on generated CSV records / old-format lines (library dump compared with the model of the '
+ 'reader) and ReadNGSFilter + ExtractMultiBarcodeSliceWorker on generated sheets (both formats) and built reads, comparing every returned record (id, '
+ 'sequence, all annotations) with the model fed with the primer hits of the real matcher, on single reads and on histories of reads on one library object, and '
+ "the two output streams of the real obimultiplex stage with the model's routing; oracles on the real code: generator intent, strand symmetry (incl. chimeras "
+ 'and delimited tags), brute-force safety, determinism over repeated runs, independence of the reads demultiplexed before on the same library (catches the '
+ 'seeded per-marker nearest-tag cache C12-m3 with failing histories),  sheet-as-read = sheet-as-declared. Third pass. THE LIBRARY OBJECT (Props/C12S.lean on '
+ 'Model/DemuxState.lean: parameters, sample tables and compiled patterns — which freeze the budgets they were compiled with — threaded as state): '
+ 'read_leaves_library_unchanged / history_leaves_library_unchanged (frame: ExtractMultiBarcode writes nothing), read_independence (the results of a history on '
+ 'one object = each read alone on the initial state), answer_independent_of_history, history_perm (order of the reads immaterial); worker_options_spec (-e > 0 '
+ "replaces both budgets of every marker, -e <= 0 keeps the sheet's values, --with-indels can only switch indels on, nothing else is touched), "
+ 'worker_compiles_current_parameters, mkWorker_idem, worker_options_persist (the object REMEMBERS the workers built before: state that exists in the code as '
+ 'it is; obimultiplex builds one worker per object); params_applied_in_order (@param lines compose in file order: a later line overrides an earlier '
+ 'conflicting one), last_global_param_wins. THE SHEET FROM ITS BYTES (Props/C12B.lean on Model/NgsFilterBytes.lean): csv_rendering_read_back (every rendering '
+ 'of records — blanks before any field, LF or CRLF per line, comment and empty lines anywhere — is read back by encoding/csv as configured by ReadCSVNGSFilter '
+ 'as exactly the declared records), csv_rendering_seen_by_detectors (the same without TrimLeadingSpace), rendering_reader_choice, '
+ 'accepted_csv_sheet_is_declared_table_partial (PARTIAL: renderings shorter than the 3072-byte window, that do not look like a sequence file and hold no '
+ "'binary data byte': such a sheet goes to the CSV reader iff its records have a constant number > 1 of fields, or those that are not @param lines do, and is "
+ 'then read from exactly the declared records), old_rendering_read_back (_readLines returns the declared lines whatever the blanks around them, LF / CRLF, '
+ 'blank lines), accepted_bytes_wellformed (a library returned for ANY bytes by either reader satisfies the hypotheses of never_wrong_sample). CHIMERAS '
+ '(Props/C12M.lean): pair_yield_strand_symmetric (any read A ++ P1 ++ BC ++ P2 ++ B with ARBITRARY flanks A, B — other amplicons, lone sites, a tag window '
+ 'reaching into the neighbour, a flank too short — and fixed-length or absent tags on both sides: the pair yields barcode / matches / error counts / tags / '
+ 'identification as a function of (P1, BC, P2, the two tag windows), and the reverse-complemented read with the mirrored hits yields the same amplicon, '
+ 'direction flipped, coordinates mirrored: with symmetric_class this is strand symmetry of whole chimeric reads for fixed tags), '
+ 'pair_yield_depends_on_tag_windows_only; positional_gating_breaks_symmetry (the gating finding has a second, positional part that also fails when BOTH direct '
+ 'primers hit: failing read on the real code in the corpus). GATED SEARCHES: gated_search_is_filter_on_separated_hits / gated_search_is_not_filter_in_general '
+ "(on C10's model of FilterBestMatch: a search started at p is the filter of the whole-read search when the raw hits are pairwise non-overlapping, and not in "
+ 'general).'),
+ 'level_note': ('Trusted: Lean kernel; the transcriptions Model/Demux.lean and Model/NgsFilter.lean; the primer matcher (hits are data, C10). The model `gate` of the gated '
+ 'searches used by symmetric_class / symmetric_iff_ungated (a search started at position p returns the hits of the whole read starting at p or after) is NOT a '
+ 'property of the matcher (FilterBestMatch keeps one representative per chain of overlapping raw hits, and the chains seen from p differ from those seen from '
+ "0): it is exact when the raw hits of the pattern are pairwise non-overlapping (theorem gated_search_is_filter_on_separated_hits, on C10's model of "
+ 'FilterBestMatch, for mismatch-only patterns whose raw search from p is the filter of the raw search from 0) and false otherwise '
+ '(gated_search_is_not_filter_in_general: the shape met by the sweep on a degenerate IUPAC primer with 3 mismatches). The classes are COUNTED on every demux '
+ 'case (stats demux.gate-is-filter, demux.gate-is-not-filter.overlapping-raw-hits / .raw-search-not-a-filter / .UNEXPLAINED-separated-raw-hits, '
+ 'demux.gate-differs-indel-pattern), never reported as failures: the model of demultiplexing takes the hit lists of the real gated calls as data and does not '
+ 'use `gate`. Strand symmetry of what each selected pair YIELDS is proved for ARBITRARY flanks (chimeras) when both sides of the marker use fixed-length or '
+ "absent tags (pair_yield_strand_symmetric, hit pairs with begin < end < begin' < end' inside the read); for delimited tags with a spacer > 0 it is false "
+ 'outside built reads (delimited_window_asymmetry is the exact counterexample: the two windows have different widths); for delimited tags with spacer 0 and '
+ 'for rescue tags it is proved on built reads only (strand_symmetry_any_tags / strand_symmetry_rescue) and is the harness oracle on chimeras. The rescue '
+ "theorems need 0 < indels < tag length and a non-delimiter base before the outer border (rescue_limits shows both failure shapes; the generator's built reads "
+ 'with rescue markers and no outer base are in the correspondence, without expectation). The library object is modelled WITH its state (Model/DemuxState.lean) '
+ 'and read-independence is a theorem on the transcription (the per-read code has no write to the library: every access is a read of the state argument); the '
+ 'model executable runs every history of the multi cases through that state-passing model (runHistory on one object, the matcher parameter being the hit lists '
+ 'of the real calls); that the transcription misses no write of the real code is tied by the history oracle (a read after others = the read on a fresh '
+ 'library) and the frame oracle (library dump after = before) of the multi cases — the seeded cache C12-m3 is such a missed write and is caught by them. The '
+ 'matcher is a parameter of that model (its hits are a function of the primers, the frozen budgets and the read: C10); the pooled annotation maps of obiseq '
+ 'are C05. obimultiplex is modelled from the records of the worker on (route); batching, parallel workers and the writers are C03/C04/C05; the file of '
+ 'unidentified reads is compared as (id, sequence, error text). The sheet reader is modelled from the BYTES (sheetb cases) for texts in which no CSV field '
+ 'starts with a double quote (a quoted field is the explicit outcome `unmodelled`, never generated; with LazyQuotes a quote inside a bare field is an ordinary '
+ 'byte): encoding/csv comments / empty lines / TrimLeadingSpace / CRLF, the 3072-byte window of the detectors with its dropped last line, and the choice of '
+ 'the reader IN THE STATE OF THE MIMETYPE TREE OF THE RUNNING COMMAND (whichReader): the tree is process-global and both guessers of obiformats extend it, in '
+ 'front, at every call; obimultiplex opens its input (OBIMimeTypeGuesser: FASTQ / FASTA / EMBL / GenBank-prefix / ecoPCR detectors and a csv detector attached '
+ "to the ROOT, asked even for data with 'binary' bytes such as a vertical tab) before it reads the sheet, so a sheet that looks like a sequence file (e.g. "
+ "'@param,…' followed by one line without blank, or by a line starting with '+': FASTQ) goes to the old reader, a constant-width CSV is text/csv whatever its "
+ 'bytes, and only then magic.Text and NGSFilterCsvDetector are asked; tab-separated-values / plain text / octet-stream all go to the old reader. The harness '
+ 'pins that state once per process (OBSERVATION, no patch: in a process that has not opened a sequence file, ReadNGSFilter sends a constant-width CSV holding '
+ 'a vertical tab to the old reader, which rejects it; the answer of a library function depends on what the process did before). Not modelled: the second form '
+ "of the GenBank detector (a first line '… Genetic Sequence Data Bank'), the other children of text/plain (html, xml, php, js, lua, perl, python, json, "
+ 'ndjson, rtf, srt, tcl, vcard, icalendar, warc, vtt) and the formats recognised by magic numbers — the text is assumed to be ASCII that none of them '
+ 'recognises. The read-back theorems are stated for renderings with a final line terminator (no final newline, a lone final CR: correspondence only) and '
+ 'accepted_csv_sheet_is_declared_table_partial for renderings below the 3072-byte window that do not look like a sequence file and hold no binary byte (beyond '
+ 'the window: modelled and tied, not in the theorem); the annotation part of the old format is modelled for the sub-grammar key=word; only (ParseOBIFeatures '
+ 'is C02); text is ASCII. In the record-level model (sheet cases) a CSV text that is not detected as CSV is assumed to be rejected by the old reader; the '
+ 'byte-level model (sheetb cases) sends it to the old reader and reads its lines. Observation (not a property violation, no patch): '
+ 'OBIMimeNGSFilterTypeGuesser registers one more CSV detector in the global mimetype tree at every call, so repeated readings get slower (the harness reads '
+ 'each sheet once per library). obimultiplex command level: --allowed-mismatches / --with-indels → library parameters is modelled (applyOpts) and tied on the '
+ 'real worker constructor (wk cases, incl. several constructions on one object); --keep-errors / --unidentified are modelled (route) and tied through the '
+ "command's own option parser and IExtractBarcode; the template printed by --template is read by the real reader and by the byte-level model (LF and CRLF). "
+ 'Open finding (code left as it is, modelled as it is, theorems gating_breaks_symmetry and positional_gating_breaks_symmetry; KEPT after measurement: removing '
+ 'the gating costs a fourth whole-read scan per marker on every ordinary read — 3 -> 4 scans, 2 -> 4 on reads without site; measured 11 -> 23 us per read for '
+ "the scans of the template library on the loaded machine, the whole worker taking ~30 us — and a fix limited to 'scan the complemented primer when the direct "
+ "one misses' costs the same fourth scan and leaves the positional half of the asymmetry): the hits of a complemented primer are collected only when the "
+ 'partner primer hits somewhere, so in reads with lone priming sites a hit lying between a forward hit and its complementary hit can be invisible to the state '
+ 'machine (pseudo-amplicon, and a different answer on the other strand). Three defects repaired in /repo (tag-length error dropped, map-order dependence, '
+ 'primer-unicity error dropped): the model is of the repaired behaviour. Concurrency: obimultiplex (IExtractBarcode) reads ONE library, builds ONE closure '
+ 'ExtractMultiBarcodeSliceWorker (options applied and the four patterns of every marker compiled once, before any worker starts) and hands it to '
+ 'MakeISliceWorker, whose nworkers goroutines all call that closure, each on the slice of its own batch; obitagpcr compiles the library once (Compile2) and '
+ 'its nworkers goroutines call ngsfilter.ExtractMultiBarcode(consensus) directly. Shared by the calls: the *NGSLibrary (Markers map; per marker the '
+ 'parameters, the tag pair -> PCR map and the four compiled ApatPattern, whose C matcher has its own concurrent oracle in C10), the closure, the process-wide '
+ 'pools of obiseq (C05). Per call, nothing handed in: the ApatSequence of the read, the hit list, the marker / primer tables, the sorted primer pairs, the '
+ 'scratch annotation map of every amplicon, the two rows of Levenshtein, the result slice. The model side of the `conc` op is the sequential history model '
+ '(read_independence: the answer of a read is its answer alone); that the real calls share nothing that changes an answer is the conc oracle on the real code, '
+ 'not a theorem (the Go memory model is not modelled). Checked by seeded regressions in a scratch tree, each exact sequentially and reported with a failing '
+ 'input: hit list hoisted to a package-level buffer (conc.differs / conc.panic in every case), Levenshtein rows hoisted (conc.differs in the indel-mode cases, '
+ 'incl. a WRONG SAMPLE), nearest-tag memo in an unsynchronised map keyed by (marker, side, mode, tag) (conc.crash), result slice kept in the library object '
+ '(conc.differs / conc.crash), sorted primer pairs built in place at first use (seen only by the many-round `first` cases, in about 3 quick runs out of 4). '
+ 'Limits: overlap is a matter of timing (the quick tier gives ~76 000 concurrent calls on ~690 libraries per run); the race detector treats every cgo call as '
+ 'a synchronisation point, so a race between two accesses separated by calls to the C matcher is reported only when the accesses physically overlap; the whole '
+ 'iterator pipeline around the worker (batches, FilterOn / DivideOn) under parallel workers is C03.'),
  'trusted_base': LEAN_TB + ['the primer hits (AllMatches of the four compiled patterns of each marker) are data of the model: the matcher is property C10',
- 'model `gate` of the symmetry theorems (a search started at p = the hits of the whole read starting at p or after): exact on pairwise '
- "non-overlapping raw hits (proved on C10's model of FilterBestMatch), counted on every case, not assumed elsewhere",
+ 'model `gate` of the symmetry theorems (a search started at p = the hits of the whole read starting at p or after): exact on pairwise non-overlapping raw '
+ "hits (proved on C10's model of FilterBestMatch), counted on every case, not assumed elsewhere",
  'pkg/obingslibrary/verif_hooks.go (read-only accessors to the compiled patterns, the sample table and the two private scanners)',
- 'the sheet renderers (markers -> text, CSV records -> text) and the reference identification (naive Hamming / memoised recursive edit distance / '
- 'unique minimiser) of the harness',
- 'encoding/csv quoted fields, and the second form of the GenBank detector, the children of text/plain other than text/csv and the ngsfilter '
- 'extension, and the magic-number formats in mimetype detection (not modelled: texts are plain ASCII without a field starting with a double quote)',
- 'harness/c12_multi.go reaches the unexported option variable obimultiplex._UnidentifiedFile through go:linkname to clear -u between cases (the '
- "option parser cannot); every other option goes through the command's own parser",
- 'Model/TaxLoad.lean (rawLines, csvLine, splitOn, trimLeft: the line / field layer of encoding/csv and bufio written for C14) and Model/Apat.lean '
- 'filterBest (C10) are imported, not re-derived',
- 'the harness calls obiformats.OBIMimeTypeGuesser once per process before any sheet is read, to put the process-global mimetype tree in the state it '
- 'has when obimultiplex reads its sheet'],
- 'modelled': ('pkg/obingslibrary multimatch.go (Hamming, Levenshtein, lookForTag, lookForRescueTag, begin/end Fixed/Delimited/Rescue tag extractors, '
- 'TagExtractor, ClosestForwardTag/ClosestReverseTag, SampleIdentifier, ExtractMultiBarcode), marker.go (CheckTagLength, GetPCR, the Set… setters, '
- 'normalizeTagDelimiter), ngslibrary.go (GetMarker, CheckPrimerUnicity, Set… / Set…For); ExtractMultiBarcodeSliceWorker (options -> parameters -> '
- 'Compile2) and ExtractMultiBarcode as state-passing functions on the library object; pkg/obiformats ngsfilter_read.go (ReadNGSFilter from the bytes '
- "on: OBIMimeNGSFilterTypeGuesser / dropLastLine / mimetype's 3072-byte window and csv / tsv detectors, encoding/csv as configured, _readLines; "
- 'ReadCSVNGSFilter, ReadOldNGSFilter, _parseMainNGSFilter(Tags), the table library_parameter, NGSFilterCsvDetector + the text/csv detector of '
- 'mimetype); pkg/obitools/obimultiplex demultiplex.go (IExtractBarcode: FilterOn / DivideOn on obimultiplex_error under --keep-errors / -u)'),
+ 'the sheet renderers (markers -> text, CSV records -> text) and the reference identification (naive Hamming / memoised recursive edit distance / unique '
+ 'minimiser) of the harness',
+ 'encoding/csv quoted fields, and the second form of the GenBank detector, the children of text/plain other than text/csv and the ngsfilter extension, and the '
+ 'magic-number formats in mimetype detection (not modelled: texts are plain ASCII without a field starting with a double quote)',
+ 'harness/c12_multi.go reaches the unexported option variable obimultiplex._UnidentifiedFile through go:linkname to clear -u between cases (the option parser '
+ "cannot); every other option goes through the command's own parser",
+ 'Model/TaxLoad.lean (rawLines, csvLine, splitOn, trimLeft: the line / field layer of encoding/csv and bufio written for C14) and Model/Apat.lean filterBest '
+ '(C10) are imported, not re-derived',
+ 'the harness calls obiformats.OBIMimeTypeGuesser once per process before any sheet is read, to put the process-global mimetype tree in the state it has when '
+ 'obimultiplex reads its sheet',
+ 'harness/c12_conc.go: the barrier / child-process machinery of the concurrent phase and the split of the records of a batch by read number (identifier r<i> '
+ 'or r<i>_sub[…])'],
+ 'modelled': ('pkg/obingslibrary multimatch.go (Hamming, Levenshtein, lookForTag, lookForRescueTag, begin/end Fixed/Delimited/Rescue tag extractors, TagExtractor, '
+ 'ClosestForwardTag/ClosestReverseTag, SampleIdentifier, ExtractMultiBarcode), marker.go (CheckTagLength, GetPCR, the Set… setters, normalizeTagDelimiter), '
+ 'ngslibrary.go (GetMarker, CheckPrimerUnicity, Set… / Set…For); ExtractMultiBarcodeSliceWorker (options -> parameters -> Compile2) and ExtractMultiBarcode as '
+ 'state-passing functions on the library object; pkg/obiformats ngsfilter_read.go (ReadNGSFilter from the bytes on: OBIMimeNGSFilterTypeGuesser / dropLastLine '
+ "/ mimetype's 3072-byte window and csv / tsv detectors, encoding/csv as configured, _readLines; ReadCSVNGSFilter, ReadOldNGSFilter, "
+ '_parseMainNGSFilter(Tags), the table library_parameter, NGSFilterCsvDetector + the text/csv detector of mimetype); pkg/obitools/obimultiplex demultiplex.go '
+ '(IExtractBarcode: FilterOn / DivideOn on obimultiplex_error under --keep-errors / -u)'),
  'assumptions': ['reads and tags are made of a/c/g/t (the reverse complement is the involution proved in C07 on its alphabet)',
  'PCR annotation values are plain words (typed values of the old format are C02)',
- 'sample sheets are plain ASCII text; no CSV field starts with a double quote (quotes elsewhere are modelled); in the record-level cases CSV fields '
- 'contain no comma, quote or line break',
+ 'sample sheets are plain ASCII text; no CSV field starts with a double quote (quotes elsewhere are modelled); in the record-level cases CSV fields contain no '
+ 'comma, quote or line break',
  'the sample sheet defines no annotation column named obimultiplex_error (hypothesis NoErrorKey of the routing theorems)']}
